@@ -71,7 +71,7 @@ def oracle(case, io):
     """intrinsic, on the implementation alone: no query variable stays bound (semcheck), and the caller's own alternatives are
     untouched - the generated callers around a predicate with cuts answer exactly their callee's answers inside their own
     generator's solutions, followed by their own last clause (progs_shapes.check_relations)"""
-    return semcheck.oracle(case, io) or progs_shapes.check_relations(case, io)
+    return semcheck.oracle(case, io) or progs_shapes.check_relations(case, io) or progs_r4.check_same_answers(case, io)
 
 def nontrivial(case, io):
     if not isinstance(io, dict) or 'queries' not in io or not any(q['count'] >= 1 for q in io['queries']):
